@@ -59,13 +59,15 @@ func Harness_C02_CheckpointFSM() {
 
 type verifMsg struct {
 	barrier uint64
+	wm      int64 // > 0: a watermark with this timestamp (seconds)
 	key     int
 	val     []byte
 	tag     int
 }
 
 // Harness_C02_Alignment: a real operator with two upstream source runners. Each delivers the
-// script e, B1, e' [, B2, e''] through HandleEvent; the harness chooses, message by message,
+// script e, B1, e' [, B2, e''] (with WM=1 each item is an event or a watermark, and SEG items
+// precede each barrier) through HandleEvent; the harness chooses, message by message,
 // whose next call arrives (every interleaving of the calls; a call that is parked for
 // alignment stays parked while the other runner continues). Events a runner delivers after its
 // own barrier N must reach the handler only after checkpoint N was acknowledged, and the DKV
@@ -82,9 +84,22 @@ func Harness_C02_Alignment() {
 	scripts := make([][]verifMsg, 2)
 	tag := 0
 	for s := range scripts {
+		wm := int64(0)
 		for r := 0; r <= rounds; r++ {
-			scripts[s] = append(scripts[s], verifMsg{key: verif.Choose("key", 2), val: verif.Bytes("v", 1), tag: tag})
-			tag++
+			items := 1
+			if r < rounds {
+				items = verif.Param("SEG", 1) // items before each barrier
+			}
+			for i := 0; i < items; i++ {
+				if verif.Param("WM", 0) == 1 && verif.Choose("watermark", 2) == 1 {
+					// a watermark instead of an event; per runner the timestamps grow
+					wm += 10
+					scripts[s] = append(scripts[s], verifMsg{wm: wm})
+				} else {
+					scripts[s] = append(scripts[s], verifMsg{key: verif.Choose("key", verif.Param("KEYS", 2)), val: verif.Bytes("v", 1), tag: tag})
+				}
+				tag++
+			}
 			if r < rounds {
 				scripts[s] = append(scripts[s], verifMsg{barrier: uint64(r + 1)})
 			}
@@ -95,7 +110,8 @@ func Harness_C02_Alignment() {
 	handler := &verifSumHandler{}
 	e := verifStartOperator(root.WithWorkingDir("gen1"), nil, senders, batch, job, handler)
 	seenAtAck := map[uint64]int{}
-	job.onAck = func(id uint64) { seenAtAck[id] = len(handler.seen) }
+	callsAtAck := map[uint64]int{}
+	job.onAck = func(id uint64) { seenAtAck[id] = len(handler.seen); callsAtAck[id] = len(handler.watermark) }
 
 	// one goroutine per upstream; the harness releases one call at a time
 	goCh := []chan struct{}{make(chan struct{}), make(chan struct{})}
@@ -109,6 +125,8 @@ func Harness_C02_Alignment() {
 				var ev *workerpb.Event
 				if m.barrier != 0 {
 					ev = verifBarrier(m.barrier)
+				} else if m.wm != 0 {
+					ev = &workerpb.Event{Event: &workerpb.Event_Watermark{Watermark: &workerpb.Watermark{Timestamp: &timestamppb.Timestamp{Seconds: m.wm}}}}
 				} else {
 					ev = verifKeyed(keys[m.key], m.val, m.tag)
 				}
@@ -152,11 +170,38 @@ func Harness_C02_Alignment() {
 			for _, m := range scripts[s] {
 				if m.barrier != 0 {
 					after = m.barrier
-				} else if m.tag == sn.tag && after != 0 {
+				} else if m.wm == 0 && m.tag == sn.tag && after != 0 {
 					at, acked := seenAtAck[after]
 					verif.Assert(acked && pos >= at, "event-after-barrier-not-handled-before-the-checkpoint")
 				}
 			}
+		}
+	}
+	// (1b) a watermark a runner delivers after its barrier N takes effect only after checkpoint N:
+	// until the acknowledgement the handler is never told more than the minimum over the runners
+	// of the newest watermark each delivered before its barrier N
+	for n := uint64(1); n <= uint64(rounds); n++ {
+		bound := int64(-1)
+		for s := range senders {
+			var newest int64
+			for _, m := range scripts[s] {
+				if m.barrier == n {
+					break
+				}
+				if m.wm > newest {
+					newest = m.wm
+				}
+			}
+			if bound < 0 || newest < bound {
+				bound = newest
+			}
+		}
+		upto, acked := callsAtAck[n]
+		if !acked {
+			continue
+		}
+		for j := 0; j < upto && j < len(handler.watermark); j++ {
+			verif.Assert(handler.watermark[j].GetSeconds() <= bound, "watermark-after-barrier-takes-no-effect-before-the-checkpoint")
 		}
 	}
 	// (2) checkpoint N restored = effects of exactly the pre-barrier events of each runner
@@ -170,7 +215,7 @@ func Harness_C02_Alignment() {
 				if m.barrier == a.id {
 					break
 				}
-				if m.barrier == 0 {
+				if m.barrier == 0 && m.wm == 0 {
 					var old byte
 					if want[m.key] != nil {
 						old = want[m.key][0]
